@@ -31,7 +31,12 @@ pub mod streaming_kzg {
 }
 pub mod multilinear_pc {
     use super::*;
+//@typemap /Vec<EvaluationHyperCubeOnG1<E>>/ => Vec<Vec<G1Affine>>
+//@typemap /Vec<EvaluationHyperCubeOnG2<E>>/ => Vec<Vec<G2Affine>>
+//@typemap /&impl MultilinearExtension<E::ScalarField>/ => &MLE
+//@typemap /<E::G1 as VariableBaseMSM>::/ => G1::
 //@struct file=poly-commit/src/multilinear_pc/data_structures.rs name=VerifierKey
+//@struct file=poly-commit/src/multilinear_pc/data_structures.rs name=CommitterKey
 //@struct file=poly-commit/src/multilinear_pc/data_structures.rs name=Commitment
 //@struct file=poly-commit/src/multilinear_pc/data_structures.rs name=Proof
     // published relation (PST13 multilinear, [Zhang et al. vSQL / Libra appendix]):
@@ -41,8 +46,29 @@ pub mod multilinear_pc {
         pair(f_sub(c.g_product@, f_mul(vk.g@, v)), vk.h@)
             == dot(ml_lefts(vk, point), g2views(proof.proofs@), min(vk.nv as nat, proof.proofs@.len()))
     }
+    // ark-poly MultilinearExtension (trusted): number of variables and the 2^nv evaluations over the hypercube
+    pub struct MLE { pub num_vars: usize, pub evals: Vec<Fr> }
+    impl MLE {
+        #[verifier::external_body] pub fn num_vars(&self) -> (r: usize) ensures r == self.num_vars { unimplemented!() }
+        #[verifier::external_body] pub fn to_evaluations(&self) -> (r: Vec<Fr>) ensures r@ == self.evals@ { unimplemented!() }
+    }
     pub struct MultilinearPC;
     impl MultilinearPC {
+//@fn id=multilinear_pc.commit file=poly-commit/src/multilinear_pc/mod.rs scope="impl<E: Pairing> MultilinearPC<E>" name=commit props=C08,C19
+        pub fn commit(ck: &CommitterKey, polynomial: &MLE) -> (res: Commitment)
+        requires
+            ck.powers_of_g@.len() >= 1,
+        ensures
+            res.nv == polynomial.num_vars,
+            // one group element: the evaluations over the hypercube against the first row of the key
+            res.g_product@ == msm(ck.powers_of_g@[0]@, fviews(polynomial.evals@), min(ck.powers_of_g@[0]@.len(), polynomial.evals@.len())),   // name=multilinear_pc.commit.key_defined_linear_map_of_the_evaluations props=C08,C19
+//@body
+//@rw 1 /let scalars: Vec<_> =/ => let scalars: Vec<BigInt> =
+//@closure |x| => |x: Fr| -> (b: BigInt) ensures b@ == x@
+//@rw 1 /&ck\.powers_of_g\[0\]/ => ck.powers_of_g[0].as_slice()
+//@after /let scalars: Vec<_> =/
+            proof { assert(bviews(scalars@) =~= fviews(polynomial.evals@)); }
+//@end
 //@fn id=multilinear_pc.check file=poly-commit/src/multilinear_pc/mod.rs scope="impl<E: Pairing> MultilinearPC<E>" name=check props=C10,C02
         pub fn check<'a>(vk: &VerifierKey, commitment: &Commitment, point: &[Fr], value: Fr, proof: &Proof) -> (res: bool)
         requires
